@@ -57,6 +57,33 @@ class PlainIter:
         return next(self.g)
 
 
+class Tag:
+    """A hashable argument without an ordering."""
+    __slots__ = ('x',)
+
+    def __init__(self, x):
+        self.x = x
+
+    def __repr__(self):
+        return 'Tag(%d)' % self.x
+
+
+_TAGS = {}
+
+
+def enc(case, x):
+    """The object actually submitted for the program value x: with 'mixed_args' the arguments are of mixed, mutually
+    unorderable types (int, str, tuple, plain object); otherwise the int itself."""
+    if not case.get('mixed_args'):
+        return x
+    k = x % 4
+    return x if k == 0 else 'v%d' % x if k == 1 else (x,) if k == 2 else _TAGS.setdefault(x, Tag(x))
+
+
+def dec(v):
+    return v if isinstance(v, int) else int(v[1:]) if isinstance(v, str) else v[0] if isinstance(v, tuple) else v.x
+
+
 def deliverable(op):
     """Elements a submission must get delivered (those produced before its producer failed)."""
     if op['op'] == 'call':
@@ -95,7 +122,7 @@ def run(case, max_steps=120000):
             state['n'] += 1
             me = state['n']
             state['running'] += 1
-            rec = {'i': me, 'start': sim.now, 'start_step': sim.steps, 'args': sorted(xs), 'ok': False,
+            rec = {'i': me, 'start': sim.now, 'start_step': sim.steps, 'args': sorted(dec(v) for v in xs), 'ok': False,
                    'overlap': state['running'] > 1, 'end': None, 'is_set': type(xs) is set}
             calls.append(rec)
             try:
@@ -136,24 +163,25 @@ def run(case, max_steps=120000):
             rec = {'thread': thread, 'op': op['op'], 't': sim.now, 'step': sim.steps,
                    'values': all_values(op), 'deliver': deliverable(op), 'kind': op.get('kind')}
             subs.append(rec)
+            E = lambda v: enc(case, v)      # noqa: E731
             if op['op'] == 'call':
-                buf(op['x'])
+                buf(E(op['x']))
             elif op['op'] == 'await':
                 async def aw(v=op['x'], f=op.get('fail'), d=d, op=op):
                     if d:
                         await aio.sleep(d)
                     if f:
                         raise _producer_failure(op, v)
-                    return v
+                    return E(v)
                 c = aw()
                 w.keep.append(c)
                 buf.await_(c)
             elif op['op'] == 'map':
                 xs, f, kind = list(op['xs']), op.get('fail_at'), op['kind']
                 if kind == 'list':
-                    buf.map(list(rec['deliver']))
+                    buf.map([E(v) for v in rec['deliver']])
                 elif kind == 'tuple':
-                    buf.map(tuple(rec['deliver']))
+                    buf.map(tuple(E(v) for v in rec['deliver']))
                 elif kind == 'range':
                     buf.map(range(xs[0], xs[0] + len(rec['deliver'])) if rec['deliver'] else range(0))
                 else:
@@ -163,7 +191,7 @@ def run(case, max_steps=120000):
                                 raise ProducerBoom(i)      # a sync iterator fails with an ordinary exception
                             if d:
                                 sim.sleep(d)
-                            yield v
+                            yield E(v)
                         if f == len(p):
                             raise ProducerBoom(f)
                     g = gen()
@@ -176,7 +204,7 @@ def run(case, max_steps=120000):
                             raise _producer_failure(op, i)
                         if d:
                             await aio.sleep(d)
-                        yield v
+                        yield E(v)
                     if f == len(p):
                         raise _producer_failure(op, f)
                 g = agen()
